@@ -107,10 +107,17 @@ def run_scenario(spec, ctx, D=None):
     gen = np.random.default_rng(spec["rng"])
     out = Outcome()
     top = geo.node_label(geo._strip_boundary(E) if E["t"] != "product" else E)
+    penv = build.params_env(prows)
     feat = f"{path}|{top}"
     pc = path       # crash signatures: exception type + library frame + sampling path
     if spec["dom"]["kind"] == "depproduct" and k >= 2:
         pc = "depproduct-extparams-k2+"
+    if rg.has(E, rg.is_boundary):
+        try:
+            if geo.touching(E, penv, 1e-4 * geo.scale_of(E, penv)):
+                pc += "+touching"
+        except Exception:      # noqa: BLE001 - classification only
+            pass
     out.tag = pc
     if D is None:
         with ctx.lib("construct", feature=top):
